@@ -16,6 +16,9 @@ CFG = dict(
         "never-installs: no Reach for any announced prefix when a recorded fault (or an independent TLV walk of the bytes) demands treat-as-withdraw",
         "treat-as-withdraw: such prefixes, when locatable, come out as Unreach",
         "discard: a kept route does not carry the discardable-faulty attribute (nor AS4 data merged from it); duplicates: exactly one copy, the first",
+        "duplicates with faulty copies (RFC 7606 3.g, the first occurrence alone decides): first copy faulty + non-discardable => never-installs / "
+        "treat-as-withdraw whatever follows; first copy faulty + discardable => kept only WITHOUT that attribute (a valid later copy is never believed); "
+        "first copy fine + later copy faulty => kept with the first, or withdrawn",
         "withdrawals-survive: legacy withdrawn routes and MP_UNREACH entries of the same message are in the result",
         "reset: Err(Notification) only when the engine damaged a length field / the attribute block / an MP attribute / NLRI octets",
         "ebgp-filter: no LOCAL_PREF / ORIGINATOR_ID / CLUSTER_LIST in any Reach when is_ebgp",
@@ -58,6 +61,11 @@ CFG = dict(
             "fault:flags": 20000, "fault:len": 15000, "fault:omit": 6000, "fault:dup": 5000,
             "fault:unknown-wk": 8000, "fault:attrlen": 5000, "fault:lenfield": 5000, "fault:seg-zero": 3000,
             "fault:value": 3000, "fault:len-zero": 3000, "fault:dup-mp": 1000,
+            # duplicate + fault on the first / the later / both copies of the same attribute
+            "combo:dup+first-mustwithdraw": 2500, "combo:dup+first-discardable": 1500, "combo:dup+later": 3500,
+            "combo:dup+both:first-mustwithdraw": 1000, "combo:dup+both:first-discardable": 600,
+            "clause:dup-first-discardable:kept-without-attr": 1500, "clause:dup-later-faulty:kept": 5000,
+            "fault:dup2-flags": 2000, "fault:dup2-len": 1500,
             "faults:2": 15000, "faults:3": 6000,
             "session:Ebgp": 25000, "session:Ibgp": 25000, "session:Confed": 12000, "session:as2": 25000, "session:as4": 35000,
             "scenario:mixed": 9000, "scenario:v4+wd": 9000, "scenario:mp+unreach": 9000,
@@ -80,6 +88,8 @@ CFG = dict(
             "e2e:fault:flags": 900, "e2e:fault:len": 850, "e2e:fault:omit": 320, "e2e:fault:dup": 270, "e2e:fault:unknown-wk": 400,
             "e2e:fault:attrlen": 250, "e2e:fault:lenfield": 290, "e2e:fault:seg-zero": 160, "e2e:fault:value": 160,
             "e2e:faults:2": 800, "e2e:faults:3": 300,
+            "e2e:combo:dup+first-mustwithdraw": 120, "e2e:combo:dup+first-discardable": 75, "e2e:combo:dup+later": 150,
+            "e2e:clause:dup-first-discardable:kept-without-attr": 60,
         }),
     quick=[e1("all", "c05", "debug", 1, 40), e1("all", "c05", "release", 1, 40),
            e2("e2e-sock", "event::verif::c05::run", 1, 30, mode="socket"),
